@@ -130,9 +130,13 @@ def grid_case(draw, formats, tier, tolerances=None):
             if first is None:
                 kind = "same"
             if kind == "scale_origin":
-                f_ = draw(st.sampled_from([0.5, 0.75, 1.25, 1.5]))
+                f_ = draw(st.sampled_from([0.5, 0.75, 1.25, 1.5, "mirror"]))
                 ox, oy = origin if draw(st.sampled_from([True, True, False])) else (float(draw(st.integers(0, 10)) * u), float(draw(st.integers(0, 20)) * u))
-                cmds = [[c[0]] + ([ox + f_ * (c[1] - ox), oy + f_ * (c[2] - oy)] if len(c) == 3 else []) for c in first]
+                if f_ == "mirror":
+                    # the mirror image across the horizontal line through that point: about the baseline it is scale(1, -1), nothing else
+                    cmds = [[c[0]] + ([c[1], 2 * oy - c[2]] if len(c) == 3 else []) for c in first]
+                else:
+                    cmds = [[c[0]] + ([ox + f_ * (c[1] - ox), oy + f_ * (c[2] - oy)] if len(c) == 3 else []) for c in first]
                 from ..gen_svg import cmds_bbox as _bb
 
                 bb_ = _bb(cmds)
@@ -179,6 +183,26 @@ def css_name_rows(formats):
                 sources.append({"model": {"vb": [0.0, 0.0, 100.0, 100.0], "nodes": nodes}, "cps": [0xE000 + len(sources)]})
             yield {"cfg": {"upem": 1000, "ascender": 800, "descender": -200, "width": 1000, "linegap": 0, "color_format": fmt, "transform": [1, 0, 0, 1, 0, 0],
                            "reuse_tolerance": 0.1, "clipbox_quantization": None, "keep_glyph_names": True, "pretty_print": False}, "sources": sources}
+
+
+def origin_rows(formats):
+    """Enumerated: copies that the encoder places by a transform *without translation* about the font origin - the exact mirror
+    image across the baseline (scale(1,-1)), uniform scales 1.5 and 0.5 about the origin, a half-turn about it is outside the
+    viewBox - each in a glyph of its own after the glyph that holds the original. Free-floating and even grid artwork reach
+    these branches a few times per thousand cases only."""
+    L = [(10.0, 62.0), (30.0, 62.0), (30.0, 68.0), (16.0, 68.0), (16.0, 78.0), (10.0, 78.0)]
+    oy = 80.0  # viewBox 100 high, ascender 800, descender -200 at 10 units per source unit: the baseline is y = 80
+
+    def path(pts, colour):
+        return {"t": "p", "d": [["M", pts[0][0], pts[0][1]]] + [["L", x, y] for x, y in pts[1:]] + [["Z"]], "fill": {"k": "solid", "c": colour}, "op": 1.0, "tag": "lib0:origin"}
+
+    variants = [("mirror", [(x, 2 * oy - y) for x, y in L]), ("x1.5", [(1.5 * x, oy + 1.5 * (y - oy)) for x, y in L]), ("x0.5", [(0.5 * x, oy + 0.5 * (y - oy)) for x, y in L])]
+    for fmt in formats:
+        sources = [{"model": {"vb": [0.0, 0.0, 100.0, 100.0], "nodes": [path(L, "#c03020")]}, "cps": [0xE000]}]
+        for i, (_, pts) in enumerate(variants):
+            sources.append({"model": {"vb": [0.0, 0.0, 100.0, 100.0], "nodes": [path(pts, "#2040%02x" % (80 + 50 * i)), path([(60.0, 20.0 + 5 * i), (90.0, 22.0), (70.0, 45.0)], "#40a040")]}, "cps": [0xE001 + i]})
+        yield {"cfg": {"upem": 1000, "ascender": 800, "descender": -200, "width": 1000, "linegap": 0, "color_format": fmt, "transform": [1, 0, 0, 1, 0, 0],
+                       "reuse_tolerance": 0.1, "clipbox_quantization": None, "keep_glyph_names": True, "pretty_print": False}, "sources": sources}
 
 
 @st.composite
@@ -481,6 +505,7 @@ def inplace_reuse_case(draw, formats, tier, tolerances=None):
 
 def enumerate_cases(tier):
     yield from css_name_rows(["glyf_colr_1"])
+    yield from origin_rows(["glyf_colr_1", "cff_colr_1"])
 
 
 def cases(tier):
